@@ -275,7 +275,7 @@ fn mirror(c: &MomCfg) -> MomCfg {
 }
 
 pub fn c17(ctx: &Ctx) -> i32 {
-    let n_paths = ctx.tier.pick(60_000, 1_500_000);
+    let n_paths = ctx.tier.pick(200_000, 4_000_000);
     let next = AtomicUsize::new(0);
     let n_viol = AtomicUsize::new(0);
     let merged = Mutex::new((MomCensus::default(), Vec::<(u64, u64, f64)>::new(), Vec::<Violation>::new(), Vec::<u64>::new(), Vec::<serde_json::Value>::new()));
